@@ -1,6 +1,8 @@
 // CONFIGS: default
 // family `puml` (C14, C++20): the TYPE-building half of the PlantUML front-end, which no contract reaches (constexpr type construction):
 // (a) the guard tree built by detail::parse_guard from a guard text evaluates like the C++ expression, for all 16 valuations of G1..G4;
+// (c) the line counters that size the generated table and the region list (count_inits / count_terminates / parse_inits) give the same
+//     answer whatever the order of the '[*] -> X' and 'X -> [*]' lines (PlantUML does not prescribe an order), and a whole machine keeps all its regions;
 // (b) both documented orders of `/ actions` and `[guard]` and action lists yield a machine that behaves like its functor-front-end twin.
 #include <boost/msm/front/puml/puml.hpp>
 #include <boost/msm/front/state_machine_def.hpp>
@@ -55,6 +57,30 @@ PUML_MACHINE(MThree, R"(@startuml Player
 [*] --> S1
 S1 -> S2 : go / a1, a2, a3
 @enduml)")
+PUML_MACHINE(MInitsFirst, R"(@startuml Player
+[*] --> S1
+[*] --> S2
+S1 -> S2 : go
+S2 --> [*]
+@enduml)")
+PUML_MACHINE(MInitAfterTerminate, R"(@startuml Player
+[*] --> S1
+S1 -> S2 : go
+S2 --> [*]
+[*] --> S2
+@enduml)")
+// oracle of (c): per line, '[*]' before '->' is an initial line, '->' before '[*]' a terminate line
+static void count_lines(const std::string& t, int& inits, int& terms, std::string& names) { inits = terms = 0; names.clear(); size_t b = 0;
+  while (b <= t.size()) { size_t e = t.find('\n', b); if (e == std::string::npos) e = t.size(); std::string l = t.substr(b, e - b); size_t s = l.find("[*]"), a = l.find("->");
+    if (s != std::string::npos && a != std::string::npos) { if (s < a) { ++inits; std::string n = l.substr(a + 2); n.erase(0, n.find_first_not_of(" \t")); n.erase(n.find_last_not_of(" \t") + 1); names += n + " "; } else ++terms; }
+    b = e + 1; } }
+static void lines_case(const char* id, const char* text) { namespace d = boost::msm::front::puml::detail; int wi, wt; std::string wn; count_lines(text, wi, wt, wn);
+  int gi = d::count_inits(text), gt = d::count_terminates(text); std::string gn; 
+  { auto n0 = d::parse_inits<0>(text), n1 = d::parse_inits<1>(text); if (!n0.empty()) gn += std::string(n0) + " "; if (!n1.empty()) gn += std::string(n1) + " "; }
+  std::string shown = text; for (auto& c : shown) if (c == '\n') c = '|';
+  report(std::string("lines.inits.") + id, gi == wi, "C14", "[" + shown + "] count_inits=" + std::to_string(gi) + " expected " + std::to_string(wi));
+  report(std::string("lines.terminates.") + id, gt == wt, "C14", "[" + shown + "] count_terminates=" + std::to_string(gt) + " expected " + std::to_string(wt));
+  report(std::string("lines.init-names.") + id, gn == wn, "C14", "[" + shown + "] parse_inits<0,1>=[" + gn + "] expected [" + wn + "]"); }
 template<class M> std::string run_machine(bool g1) { G[1] = g1; g_log.clear(); M m; m.start(); m.process_event(Event<by_name("go")>{}); g_log += "state=" + std::to_string(m.current_state()[0]); return g_log; }
 int main(int argc, char** argv) {
   if (argc > 1) g_only = argv[1];
@@ -80,5 +106,13 @@ int main(int argc, char** argv) {
     report("machine.guard-then-action.g" + std::to_string(g1), b == want, "C14", "trace=[" + b + "] expected=[" + want + "]");
   }
   { std::string t = run_machine<MThree>(true); report("machine.three-actions-in-order", t == "a1 a2 a3 state=1", "C14,C02", "trace=[" + t + "]"); }
+  lines_case("documented-order", "@startuml P\n[*] --> S1\nS1 -> S2 : go\nS2 --> [*]\n@enduml");
+  lines_case("two-inits-first", "@startuml P\n[*] --> S1\n[*] --> S2\nS1 -> S2 : go\nS2 --> [*]\n@enduml");
+  lines_case("no-terminate", "@startuml P\n[*] -> S1\nS1 -> S2 : go\n@enduml");
+  lines_case("two-terminates", "@startuml P\n[*] -> S1\nS1 -> S2 : go\nS1 -> [*]\nS2 --> [*]\n@enduml");
+  lines_case("init-after-terminate", "@startuml P\n[*] --> S1\nS1 -> S2 : go\nS2 --> [*]\n[*] --> S2\n@enduml");
+  lines_case("terminate-before-every-init", "@startuml P\nS2 --> [*]\n[*] --> S1\nS1 -> S2 : go\n@enduml");
+  report("machine.regions.inits-first", (int)MInitsFirst::nr_regions::value == 2, "C14", "two '[*] -->' lines before the terminate line: nr_regions=" + std::to_string((int)MInitsFirst::nr_regions::value) + " expected 2");
+  report("machine.regions.init-after-terminate", (int)MInitAfterTerminate::nr_regions::value == 2, "C14", "the same lines with the second '[*] -->' after the terminate line: nr_regions=" + std::to_string((int)MInitAfterTerminate::nr_regions::value) + " expected 2");
   printf("DONE %d scenarios %d failed\n", g_scn, g_fail); return 0;
 }
